@@ -70,6 +70,8 @@ def segment(R, stream, tail=None):
 def gen_ops(seed, n):
     R = random.Random(seed)
     ops = []
+    # corpus (runs first): the known finding F13 - a terminal code that is 0 mod 256 - in an otherwise conforming exchange
+    ops.append(('M -1,t1 %s' % ' '.join(segment(R, b'001 VERSION\r\n' + PROMPT + b'256 not a code powermand sends\r\n' + PROMPT + b'101 Goodbye\r\n', None)), None))
     for _ in range(n):
         r = R.random()
         if r < 0.62:
